@@ -42,6 +42,10 @@ TEMPLATES = {
     "lognormal": (lambda: LogNormalDistribution(), ("mu", "sigma")),
     "lnnf": (lambda: LogNormalNormFitDistribution(), ("mu_norm", "sigma_norm")),
     "weibull": (lambda: WeibullDistribution(f_gamma=0.0), ("alpha", "beta")),
+    # templates whose FIXED parameter precedes a dependent one in the parameter order
+    "normal_fmu": (lambda: NormalDistribution(f_mu=1.0), ("sigma",)),
+    "lognormal_fmu": (lambda: LogNormalDistribution(f_mu=0.5), ("sigma",)),
+    "ew_fbeta": (lambda: ExponentiatedWeibullDistribution(f_beta=1.5), ("alpha", "delta")),
     "ew": (lambda: ExponentiatedWeibullDistribution(f_delta=2.0), ("alpha", "beta")),
 }
 MARGINALS = {
@@ -50,7 +54,7 @@ MARGINALS = {
     "ew": lambda: ExponentiatedWeibullDistribution(),
     "normal": lambda: NormalDistribution(),
 }
-EXACT = {"normal", "lognormal", "lnnf"}
+EXACT = {"normal", "lognormal", "lnnf", "normal_fmu"}
 
 
 def build(spec):
@@ -363,6 +367,9 @@ SPECS_2D = [
     {"dims": [{"marginal": "ew"}, {"template": "lognormal", "on": 0}]},
     {"dims": [{"marginal": "lognormal"}, {"template": "ew", "on": 0}]},
     {"dims": [{"marginal": "weibull"}, {"template": "weibull", "on": 0}]},
+    {"dims": [{"marginal": "lognormal"}, {"template": "normal_fmu", "on": 0}]},
+    {"dims": [{"marginal": "lognormal"}, {"template": "lognormal_fmu", "on": 0}]},
+    {"dims": [{"marginal": "lognormal"}, {"template": "ew_fbeta", "on": 0}]},
 ]
 SPECS_3D = [
     {"dims": [{"marginal": "lognormal"}, {"template": "lognormal", "on": 0}, {"template": "normal", "on": 1}]},
@@ -379,7 +386,7 @@ def fit_variants(spec):
     opts = []
     for d in spec["dims"]:
         name = d.get("marginal") or d.get("template")
-        if name == "ew":
+        if name in ("ew", "ew_fbeta") and name == "ew":
             opts.append([None, {"method": "mle"}, {"method": "wlsq", "weights": "quadratic"}, {"method": "wlsq"}])
         else:
             opts.append([None, {"method": "mle"}])
@@ -392,8 +399,8 @@ def fit_variants(spec):
 
 
 def main(ctx):
-    ctx.rule = ("A1: 3 closed-form templates x 6 slicer settings x ALL 7! = 5040 row orders of a 7-row matrix with ties (exact "
-                "comparison 1e-9). A2: 5 two-dimensional + 3 three-dimensional structures x 6 slicer settings x n in {300, 2000(, "
+    ctx.rule = ("A1: 4 closed-form templates (one with a leading fixed parameter) x 6 slicer settings x ALL 7! = 5040 row orders of a 7-row matrix with ties (exact "
+                "comparison 1e-9). A2: 8 two-dimensional (3 of them with a fixed parameter that precedes a dependent one) + 3 three-dimensional structures x 6 slicer settings x n in {300, 2000(, "
                 "20000)} x every fit-description assignment x a fixed family of 32 row permutations (reverse, interleave, rotations, "
                 "all 23 non-identity orders of four blocks, ascending/descending by column). A3: explicit-state BFS over histories "
                 "of fit(D_a, order_b) events on the real model. evaluations = model fits.")
@@ -401,7 +408,7 @@ def main(ctx):
                        "the slicer itself is the reference for interval membership (its partition property is C10)"]
     q = ctx.quick
     cases = []
-    for t in ("normal", "lognormal", "lnnf"):
+    for t in ("normal", "lognormal", "lnnf", "normal_fmu"):
         for sl in SMALL_SLICERS:
             cases.append({"kind": "small", "template": t, "slicer": list(sl)})
     ns = (300, 2000) if q else (300, 2000, 20000)
